@@ -144,6 +144,8 @@ static int vp_hard_errno;       /* its errno */
 static int vp_hard_call;        /* 1 open 2 write 3 sync 4 close 5 fstat 6 fcntl 7 read 8 other */
 static int vp_tolerated;        /* directory fsync failed with EINVAL/EBADF */
 static int vp_faults = 1;       /* harness may switch all hard failures off */
+static int vp_no_einval;        /* harness: open(2) never rejects O_CLOEXEC (that path is checked by wfile create) */
+static int vp_close_error_ignored; /* harness: the unit ignores close(2) errors by design (lock file descriptors) */
 static int vp_quiet;            /* harness: every call succeeds (set-up phases checked elsewhere) */
 
 /* writable-file monitor */
@@ -256,7 +258,7 @@ vp_open(const char *name, int flags, ...) {
   vp_opens++;
 
   /* EINVAL: the kernel rejects O_CLOEXEC (the real code retries without) */
-  k = vp_kind((flags & O_CLOEXEC) != 0);
+  k = vp_kind((flags & O_CLOEXEC) != 0 && !vp_no_einval);
 
   if (k == VP_R_EINTR) {
     errno = EINTR;
@@ -318,7 +320,7 @@ vp_close(int fd) {
   if (k == VP_R_FAIL) {
     /* a failing close(2) of a read-only directory descriptor is harmless and
        ignored by the real code: not recorded as a failed step */
-    if (isdir)
+    if (isdir || vp_close_error_ignored)
       errno = vp_pick_errno();
     else
       vp_fail_hard(4, vp_pick_errno());
